@@ -100,3 +100,10 @@ contract(CR + "dereference_var", props=["C10"],
                               "field(field(result, '_cpp_type'), '_element_type') == field(field(v, '_cpp_type'), '_element_type'))"),
                   ("original_untouched", "field(v, '_expression') == old(field(v, '_expression')) and field(v, '_cpp_type') == old(field(v, '_cpp_type')) "
                                          "and field(field(v, '_cpp_type'), '_p_depth') == old(field(field(v, '_cpp_type'), '_p_depth'))")])
+
+# ---- type of a sequence: a collection of its element type (recursive through nested sequences) -------------------
+contract(CR + "cpp_sequence.cpp_type", props=["C10"],
+         params=dict(self=RefOf(CR + "cpp_sequence")), result=TERM,
+         modifies=["_type@" + CR + "cpp_sequence", "alloc"], may_raise=["Exception"], strict=False,
+         ensures=[("collection", "result != None and live(result) and isinst(result, '" + CT + "collection')"),
+                  ("vector_of", "startswith(field(result, '_type', '" + CT + "terminal'), 'std::vector<')")])
